@@ -251,6 +251,16 @@ class Analyzer:
                         return Cur(c.k + b.value, c.eof, False)
                     if isinstance(b, ast.Call) and callee_name(b) == "len":
                         return Cur(c.k, c.eof, False)          # + len(x) >= 0
+                    if isinstance(b, ast.IfExp):
+                        # + (2 if wide else 1): the smaller of the two constant steps
+                        arms = []
+                        q = b
+                        while isinstance(q, ast.IfExp):
+                            arms.append(q.body)
+                            q = q.orelse
+                        arms.append(q)
+                        if all(isinstance(x, ast.Constant) and isinstance(x.value, int) and not isinstance(x.value, bool) and x.value >= 0 for x in arms):
+                            return Cur(c.k + min(x.value for x in arms), c.eof, False)
                     if isinstance(b, ast.Name) and st.get(b.id) == "nonneg":
                         return Cur(c.k, c.eof, False)
         if isinstance(e, ast.Call):
@@ -638,9 +648,9 @@ class Analyzer:
                     st["$consumed"] = True
                 # j = i + c (c >= 1) with i known below len(t): the characters stepped over are in the text (same reading as an
                 # argument `i + c` handed to a reader), whatever the position is called
-                if isinstance(value, ast.BinOp) and isinstance(value.op, ast.Add) and isinstance(value.left, ast.Name) and isinstance(value.right, ast.Constant) and \
-                        isinstance(value.right.value, int) and value.right.value >= 1 and isinstance(st.get(value.left.id), Cur) and st[value.left.id].lt:
-                    st["$consumed"] = True
+                if isinstance(value, ast.BinOp) and isinstance(value.op, ast.Add) and isinstance(value.left, ast.Name) and isinstance(st.get(value.left.id), Cur) and \
+                        st[value.left.id].lt and c.k > st[value.left.id].k:
+                    st["$consumed"] = True          # (the step is a constant >= 1, or the smaller arm of `2 if wide else 1`)
                 src_name = value.id if isinstance(value, ast.Name) else None
                 self.kill_rels(st, {name}, keep_mono=({name} if mono else ()))
                 st[name] = Cur(c.k, c.eof if (mono or src_name) else False, c.lt if src_name else False)
@@ -877,7 +887,10 @@ class Analyzer:
             if c is None:
                 self.problems.append(f"{self.name}: returned index is not a cursor expression: {src(v.elts[0])}")
                 c = Cur(0)
-            base = self.cursor_of(v.elts[0].left, st) if isinstance(v.elts[0], ast.BinOp) and isinstance(v.elts[0].left, ast.Name) else (st.get(v.elts[0].id) if isinstance(v.elts[0], ast.Name) else None)
+            b0 = v.elts[0]
+            while isinstance(b0, ast.BinOp) and isinstance(b0.op, ast.Add):          # i + 2 + 1: the cursor the sum starts from
+                b0 = b0.left
+            base = st.get(b0.id) if isinstance(b0, ast.Name) else None
             cons = consumed or (isinstance(base, Cur) and base.lt and c.k > base.k)
             y = v.elts[1]
             nl = self.nullness(y, st)
@@ -1028,22 +1041,40 @@ def _first_stmt_index(fn):
 
 
 def _entry_condition(fn):
-    """`while i < len(t) and P(t[i]): i += 1` as the first cursor-changing statement: advance >= 1 when the test holds on entry"""
+    """`while i < len(t) and P(t[i]): i += 1` as the first cursor-changing statement: advance >= 1 when the test holds on entry.
+    The scanning position may be another local set to the entry cursor first (`end = i`) as long as it is what the function returns."""
+    aliases = set()
     for s in fn.body:
         if isinstance(s, ast.Expr) and isinstance(s.value, ast.Constant):
             continue
-        if isinstance(s, ast.Assign) and not any(isinstance(n, ast.Name) and n.id == "i" and isinstance(n.ctx, ast.Store) for n in ast.walk(s)):
+        if isinstance(s, ast.Pass):
+            continue
+        if isinstance(s, ast.Assign) and len(s.targets) == 1 and isinstance(s.targets[0], ast.Name) and isinstance(s.value, ast.Name) and s.value.id == "i":
+            aliases.add(s.targets[0].id)          # another name for the entry position (`p = i`, `end = i`)
+            continue
+        if isinstance(s, ast.Assign) and not any(isinstance(n, ast.Name) and n.id in ({"i"} | aliases) and isinstance(n.ctx, ast.Store) for n in ast.walk(s)):
             continue
         if isinstance(s, ast.While) and isinstance(s.test, ast.BoolOp) and isinstance(s.test.op, ast.And):
+            moved = [src(b.target) for b in s.body if isinstance(b, ast.AugAssign)]
+            cur = next((m_ for m_ in moved if m_ == "i" or m_ in aliases), None)
+            if cur is None:
+                return None
             conds = []
             for v in s.test.values:
-                if isinstance(v, ast.Compare) and src(v) == "i < len(t)":
+                if isinstance(v, ast.Compare) and src(v) == f"{cur} < len(t)":
                     conds.append("$i < len(t)")
-                elif isinstance(v, ast.Call) and len(v.args) == 1 and src(v.args[0]) == "t[i]":
+                elif isinstance(v, ast.Call) and len(v.args) == 1 and src(v.args[0]) == f"t[{cur}]":
                     conds.append(f"{callee_name(v)}(t[$i])")
                 else:
                     return None
-            if any(isinstance(b, ast.AugAssign) and src(b.target) == "i" for b in s.body):
+            if cur != "i":
+                # `i` itself must stay the entry position and the moved position must be the index returned
+                if any(isinstance(n, ast.Name) and n.id == "i" and isinstance(n.ctx, ast.Store) for n in walk_local(fn)):
+                    return None
+                rets = [r for r in walk_local(fn) if isinstance(r, ast.Return)]
+                if not rets or not all(isinstance(r.value, ast.Tuple) and r.value.elts and isinstance(r.value.elts[0], ast.Name) and r.value.elts[0].id == cur for r in rets):
+                    return None
+            if any(isinstance(b, ast.AugAssign) and src(b.target) == cur for b in s.body):
                 return conds
         return None
     return None
